@@ -193,12 +193,39 @@ class Gen:
                 cands.append(("diagrange", m))
             if n1 * n2 == n and n > 0:
                 cands.append(("tovec", m))
+            # proxy nesting >= 4: sub-range of a row of the transpose of a sub-matrix / of the rows of a transpose,
+            # sub-range of the diagonal of a sub-matrix of a transpose
+            if n1 >= max(n, 1) and n2 >= 1:
+                cands.append(("deep_row", m)); cands.append(("deep_row2", m))
+            if min(n1, n2) >= max(n, 1):
+                cands.append(("deep_diag", m))
         if not cands:
             return None
         how, v = r.choice(cands)
         b = v.expr()
         if how == "var":
             return b
+        if how == "deep_row":
+            # subrange(row(trans(subrange(M,s1,e1,s2,e2)),i),s,s+n): the row of the transpose is a column piece of M
+            a1 = r.range(max(n, 1), v.shape[0]); b1 = r.range(1, v.shape[1])
+            s1 = r.range(0, v.shape[0] - a1); s2 = r.range(0, v.shape[1] - b1)
+            row = self.mk_row(self.mk_trans(self.mk_mrange(b, s1, s1 + a1, s2, s2 + b1)), r.below(b1))
+            s0 = r.range(0, a1 - n)
+            return self.mk_range(row, s0, s0 + n)
+        if how == "deep_row2":
+            # subrange(subrange(row(rows(trans(M),s,e),i),..),..): five proxies deep
+            b1 = r.range(1, v.shape[1]); s2 = r.range(0, v.shape[1] - b1)
+            row = self.mk_row(self.mk_rows(self.mk_trans(b), s2, s2 + b1), r.below(b1))      # size n1
+            mid = r.range(n, v.shape[0]); sm = r.range(0, v.shape[0] - mid)
+            s0 = r.range(0, mid - n)
+            return self.mk_range(self.mk_range(row, sm, sm + mid), s0, s0 + n)
+        if how == "deep_diag":
+            # subrange(diag(subrange(trans(M),s1,s1+k,s2,s2+k)),s,s+n)
+            k = r.range(max(n, 1), min(v.shape))
+            s1 = r.range(0, v.shape[1] - k); s2 = r.range(0, v.shape[0] - k)
+            d = self.mk_diag(self.mk_mrange(self.mk_trans(b), s1, s1 + k, s2, s2 + k))
+            s0 = r.range(0, k - n)
+            return self.mk_range(d, s0, s0 + n)
         if how == "tovec":
             return self.mk_tovec(b)
         if how == "rowrange":
@@ -241,12 +268,25 @@ class Gen:
                 cands.append(("cols", m))
             if b >= n1 and a >= n2 and (b, a) != (n1, n2):
                 cands.append(("transrange", m))
+            if a >= n1 and b >= n2 and a >= 1 and b >= 1:
+                cands.append(("deep", m))
         if not cands:
             return None
         how, m = r.choice(cands)
         b = m.expr()
         if how == "var":
             return b
+        if how == "deep":
+            # trans(subrange(trans(rows(M,s,e)),...)) resp. with columns: four proxies deep, orientation flipped twice
+            if r.chance(1, 2):
+                h = r.range(max(n1, 1), m.shape[0]); s = r.range(0, m.shape[0] - h)
+                inner = self.mk_trans(self.mk_rows(b, s, s + h))                 # (b, h)
+                s1 = r.range(0, m.shape[1] - n2); s2 = r.range(0, h - n1)
+                return self.mk_trans(self.mk_mrange(inner, s1, s1 + n2, s2, s2 + n1))
+            w = r.range(max(n2, 1), m.shape[1]); s = r.range(0, m.shape[1] - w)
+            inner = self.mk_trans(self.mk_cols(b, s, s + w))                     # (w, a)
+            s1 = r.range(0, w - n2); s2 = r.range(0, m.shape[0] - n1)
+            return self.mk_trans(self.mk_mrange(inner, s1, s1 + n2, s2, s2 + n1))
         if how == "transrange":
             # trans(subrange(M)) or subrange(trans(M))
             s1 = r.range(0, m.shape[1] - n1); s2 = r.range(0, m.shape[0] - n2)
